@@ -1017,8 +1017,10 @@ Definition handle_continue_parent (s : state) (id i : nat) (o : owner) (retry : 
   | Some st =>
       let ks := map (status_at s) (kids s i o) in
       if existsb in_halt ks then
-        if negb (can_transition (s_status st) TERMINAL) then raised
-        else ok [txn [c_put i (st_end st TERMINAL); c_mark id; c_push (MCompleteStage i)]]
+        (* _halted_children_status: children that were merely CANCELED cancel the parent; a TERMINAL / STOPPED one fails it *)
+        let x := if forallb (fun k => negb (in_halt k) || status_eqb k CANCELED) ks then CANCELED else TERMINAL in
+        if negb (can_transition (s_status st) x) then raised
+        else ok [txn [c_put i (st_end st x); c_mark id; c_push (MCompleteStage i)]]
       else if negb (forallb in_continuable ks) then
         if (max_stage_wait_retries <=? retry)%Z then
           if negb (can_transition (s_status st) TERMINAL) then raised
